@@ -19,7 +19,8 @@ Targets: harness/loop_targets/<Module>.json
   {"module": "LoopsSlim", "tie_module": "Proofs.TieSlim", "namespace": "TieSlim",      (last two optional)
    "functions": [{"file": "autoarray/mask/mask_2d_util.py", "name": "total_pixels_2d_from",
                   "params": {"mask_2d": "A2 Bool"}, "returns": "Int", "lean_name": "..."(optional)}, ...]}
-Type vocabulary: Bool | Int | Real | A1 <s> | A2 <s> | T × T × ... | (T,)   (<s> a scalar type).
+Type vocabulary: Bool | Int | Real | Complex | A1 <s> | A2 <s> | T × T × ... | (T,)   (<s> a scalar type;
+Complex is the pair (re, im) : α × α).
 
 Only the standard library is used.  The output is a deterministic function of the source text.
 """
@@ -48,6 +49,8 @@ class _Unknown(Exception):
 
 # ======================================================================================== types
 BOOL, INT, REAL = ("bool",), ("int",), ("real",)
+CX = ("cx",)          # a complex number: the pair (re, im) : α × α
+IMAG = ("imag",)      # transient: a purely imaginary value `y * 1j`, carried as the real text of `y`
 
 
 def A1(t):
@@ -62,7 +65,8 @@ def TUP(ts):
     return ("tup", tuple(ts))
 
 
-_SCALARS = {"Bool": BOOL, "Int": INT, "Real": REAL, "bool": BOOL, "int": INT, "real": REAL, "float": REAL}
+_SCALARS = {"Bool": BOOL, "Int": INT, "Real": REAL, "bool": BOOL, "int": INT, "real": REAL, "float": REAL,
+            "Complex": CX, "complex": CX}
 
 
 def parse_type(s: str):
@@ -85,7 +89,7 @@ def parse_type(s: str):
     m = re.fullmatch(r"(A1|A2)\s+(\w+)", s)
     if m and m.group(2) in _SCALARS:
         return (m.group(1).lower(), _SCALARS[m.group(2)])
-    raise TranslationError(f"unknown type {s!r} (vocabulary: Bool, Int, Real, A1 <scalar>, A2 <scalar>, "
+    raise TranslationError(f"unknown type {s!r} (vocabulary: Bool, Int, Real, Complex, A1 <scalar>, A2 <scalar>, "
                            f"T × T, (T,))")
 
 
@@ -126,6 +130,8 @@ def lean_type(t, nested=False):
         return "Int"
     if k == "real":
         return "α"
+    if k == "cx":
+        return "(α × α)" if nested else "α × α"
     if k in ("a1", "a2"):
         s = f"PyRt.{k.upper()} {lean_type(t[1], True)}"
         return f"({s})" if nested else s
@@ -142,6 +148,8 @@ def lean_type(t, nested=False):
 
 def show_type(t):
     k = t[0]
+    if k == "cx":
+        return "Complex"
     if k in ("bool", "int", "real"):
         return k.capitalize()
     if k in ("a1", "a2"):
@@ -154,6 +162,8 @@ def show_type(t):
 def show_lean_vocab(t):
     """a type in the vocabulary of the targets JSON"""
     k = t[0]
+    if k == "cx":
+        return "Complex"
     if k in ("bool", "int", "real"):
         return k.capitalize()
     if k in ("a1", "a2"):
@@ -166,7 +176,7 @@ def show_lean_vocab(t):
 
 
 def mentions_real(t):
-    if t == REAL:
+    if t in (REAL, CX, IMAG):
         return True
     if t[0] in ("a1", "a2", "opt"):
         return mentions_real(t[1])
@@ -180,7 +190,7 @@ def is_num(t):
 
 
 def is_scalar(t):
-    return t in (BOOL, INT, REAL)
+    return t in (BOOL, INT, REAL, CX)
 
 
 def is_arr(t):
@@ -195,6 +205,8 @@ def join(a, b, what):
         return a
     if {a, b} == {INT, REAL}:
         return REAL
+    if CX in (a, b) and a in (INT, REAL, CX, IMAG) and b in (INT, REAL, CX, IMAG):
+        return CX
     if a[0] == "tup" and b[0] == "tup" and len(a[1]) == len(b[1]):
         return TUP([join(x, y, what) for x, y in zip(a[1], b[1])])
     raise TranslationError(f"{what}: incompatible types {show_type(a)} and {show_type(b)}")
@@ -282,6 +294,8 @@ def zero_value(t) -> str:
         return "0"
     if k == "real":
         return "(0 : α)"
+    if k == "cx":
+        return "((0 : α), (0 : α))"
     if k == "a1":
         return "[]"
     if k == "a2":
@@ -634,6 +648,12 @@ class Fn:
             if m:
                 return self.real_const(int(m.group(1)))
             return f"(({strip_par(text)} : Int) : α)"
+        if to == CX and frm in (INT, REAL, BOOL):
+            self.need("OfNat0")
+            return f"({strip_par(self.co(text, frm, REAL, node, what))}, (0 : α))"
+        if to == CX and frm == IMAG:
+            self.need("OfNat0")
+            return f"((0 : α), {strip_par(text)})"
         if frm == BOOL and to == INT:
             return f"(PyRt.b2i {par(text)})"
         if frm == BOOL and to == REAL:
@@ -673,6 +693,13 @@ class Fn:
 
     def ex(self, e):
         """-> (Lean text safe to embed as an argument after `par`, type)"""
+        t, ty = self.ex_raw(e)
+        if ty == IMAG:                      # a purely imaginary value that leaves arithmetic: (0, y)
+            return self.co(t, IMAG, CX), CX
+        return t, ty
+
+    def ex_raw(self, e):
+        """`ex`, but a purely imaginary value `y * 1j` stays symbolic (type IMAG, text of `y`)"""
         if isinstance(e, ast.Constant):
             v = e.value
             if isinstance(v, bool):
@@ -681,6 +708,8 @@ class Fn:
                 return (str(v) if v >= 0 else f"({v})"), INT
             if isinstance(v, float):
                 return self.real_const(v), REAL
+            if isinstance(v, complex) and v.real == 0:
+                return self.real_const(v.imag), IMAG
             self.unsupported(e, "constant")
         if isinstance(e, ast.Name):
             return self.var(e.id, e)
@@ -758,6 +787,8 @@ class Fn:
         """arithmetic on scalar operands given as Lean text"""
         l, lt = self.num(l, lt, node)
         r, rt = self.num(r, rt, node)
+        if lt in (CX, IMAG) or rt in (CX, IMAG):
+            return self.complex_binop(op, l, lt, r, rt, node)
         if not (is_num(lt) and is_num(rt)):
             self.fail(f"arithmetic on {show_type(lt)} and {show_type(rt)}", node)
         if type(op) in BINOPS:
@@ -777,7 +808,93 @@ class Fn:
             return f"({f} {par(l)} {par(r)})", INT
         self.unsupported(node, "binary operator")
 
+    def complex_binop(self, op, l, lt, r, rt, node):
+        """arithmetic with a complex (CX: a pair) or purely imaginary (IMAG: text of the imaginary part)
+        operand.  Mixed real/complex operations keep the real operand real (`x + 1j*y` is the pair `(x, y)`,
+        `r * z` scales both parts): exact over the reals, and what numpy computes up to signed zeros."""
+        for ty in (lt, rt):
+            if ty not in (INT, REAL, CX, IMAG):
+                self.fail(f"complex arithmetic on {show_type(lt)} and {show_type(rt)}", node)
+        real = lambda t, ty: par(self.co(t, ty, REAL))
+        add = isinstance(op, ast.Add)
+        if isinstance(op, ast.Mult):
+            self.need("Mul")
+            if IMAG in (lt, rt) and CX not in (lt, rt):
+                if lt == IMAG and rt == IMAG:
+                    self.need("Neg")
+                    return f"(-({par(l)} * {par(r)}))", REAL
+                (i, o, oty) = (l, r, rt) if lt == IMAG else (r, l, lt)
+                if i == "(1 : α)":
+                    return real(o, oty), IMAG                      # 1j * y
+                return (f"({par(i)} * {real(o, oty)})" if lt == IMAG else f"({real(o, oty)} * {par(i)})"), IMAG
+            if lt == CX and rt == CX:
+                self.need("Add", "Sub")
+                return f"(PyRt.cmul {par(l)} {par(r)})", CX
+            if IMAG in (lt, rt):
+                self.need("Add", "Sub")
+                (i, c) = (l, r) if lt == IMAG else (r, l)
+                return f"(PyRt.cmul {par(self.co(i, IMAG, CX))} {par(c)})", CX
+            (c, o, oty) = (l, r, rt) if lt == CX else (r, l, lt)
+            return f"(PyRt.csmul {real(o, oty)} {par(c)})", CX      # real * complex
+        if isinstance(op, (ast.Add, ast.Sub)):
+            self.need("Add" if add else "Sub")
+            sym = "+" if add else "-"
+            if lt == IMAG and rt == IMAG:
+                return f"({par(l)} {sym} {par(r)})", IMAG
+            if lt in (INT, REAL) and rt == IMAG:                    # x + 1j * y  ->  (x, y)
+                if not add:
+                    self.need("Neg")
+                return f"({strip_par(real(l, lt))}, {strip_par(r) if add else '-' + par(r)})", CX
+            if lt == IMAG and rt in (INT, REAL):
+                if not add:
+                    self.need("Neg")
+                return f"({strip_par(real(r, rt)) if add else '-' + real(r, rt)}, {strip_par(l)})", CX
+            lc = l if lt == CX else self.co(l, lt, CX)
+            rc = r if rt == CX else self.co(r, rt, CX)
+            return f"(PyRt.{'cadd' if add else 'csub'} {par(lc)} {par(rc)})", CX
+        self.fail(f"`{type(op).__name__}` on complex numbers is not in the subset (only + - *)", node)
+
+    def complex_const(self, e):
+        """a constant complex expression such as `0 + 0j`, `(0.0 + 0j)`, `1j` -> Python complex | None
+        (None also when no imaginary literal occurs in it)"""
+        def fold(x):
+            if isinstance(x, ast.Constant) and isinstance(x.value, (int, float, complex)) \
+                    and not isinstance(x.value, bool):
+                return complex(x.value), isinstance(x.value, complex)
+            if isinstance(x, ast.BinOp) and isinstance(x.op, (ast.Add, ast.Sub, ast.Mult)):
+                a, b = fold(x.left), fold(x.right)
+                if a is None or b is None:
+                    return None
+                v = a[0] + b[0] if isinstance(x.op, ast.Add) else a[0] - b[0] if isinstance(x.op, ast.Sub) \
+                    else a[0] * b[0]
+                return v, a[1] or b[1]
+            return None
+        r = fold(e)
+        return r[0] if r is not None and r[1] else None
+
+    def complex_zeros(self, e):
+        """`0 + 0j * np.zeros(S)`, `(0.0 + 0j) * np.zeros(S)`: a complex array of zeros -> (text, type) | None"""
+        is_zeros = lambda x: isinstance(x, ast.Call) and dotted(x.func) in ("np.zeros", "numpy.zeros")
+        if not isinstance(e, ast.BinOp):
+            return None
+        if isinstance(e.op, ast.Mult):
+            for a, b in ((e.left, e.right), (e.right, e.left)):
+                if is_zeros(b) and self.complex_const(a) is not None:
+                    t, ty = self.alloc(b, "(0 : α)", REAL)
+                    self.need("OfNat0")
+                    return t.replace(".zeros (α := α)", ".czeros (α := α)", 1), (ty[0], CX)
+        if isinstance(e.op, ast.Add):
+            for a, b in ((e.left, e.right), (e.right, e.left)):
+                inner = self.complex_zeros(b)
+                if inner is not None and isinstance(a, ast.Constant) and a.value == 0 \
+                        and not isinstance(a.value, bool):
+                    return inner
+        return None
+
     def binop_node(self, e):
+        cz = self.complex_zeros(e)
+        if cz is not None:
+            return cz
         # c * np.ones(shape)  /  np.ones(shape) * c  -> full
         for a, b in ((e.left, e.right), (e.right, e.left)):
             if isinstance(e.op, ast.Mult) and isinstance(b, ast.Call) and dotted(b.func) in ("np.ones", "numpy.ones"):
@@ -807,8 +924,10 @@ class Fn:
                 self.oracles.add("rpow")        # general real power: an explicit parameter, like sqrt
                 return f"(rpow {par(self.co(l, lt, REAL))} {par(self.co(r, rt, REAL))})", REAL
             self.fail("`**` is supported with the literal exponent 2 / 2.0, or as the oracle `rpow` on reals", e)
-        (l, lt), (r, rt) = self.ex(e.left), self.ex(e.right)
+        (l, lt), (r, rt) = self.ex_raw(e.left), self.ex_raw(e.right)
         if is_arr(lt) or is_arr(rt):
+            if IMAG in (lt, rt):
+                (l, lt), (r, rt) = self.ex(e.left), self.ex(e.right)
             return self.array_binop(e, l, lt, r, rt)
         return self.scalar_binop(e.op, l, lt, r, rt, e)
 
@@ -894,7 +1013,7 @@ class Fn:
     def subscript(self, e):
         v, sl = e.value, e.slice
         if any(isinstance(n, ast.Slice) for n in ast.walk(sl)):
-            self.unsupported(e, "slice in an expression (only `a[i, :] = (..)` stores are in the subset)")
+            return self.slice_value(e)
         # a[i][j]  ==  a[i, j]
         if isinstance(v, ast.Subscript) and not isinstance(v.slice, ast.Tuple):
             bt, bty = self.ex(v.value)
@@ -937,8 +1056,64 @@ class Fn:
             return f"(PyRt.A2.row {par(bt)} {self.index(sl)})", A1(bty[1])
         self.fail(f"subscript of a value of type {show_type(bty)}", e)
 
+    def peek_type(self, e):
+        """the type of an expression, without consuming fresh names"""
+        n0 = self.fresh_n
+        try:
+            return self.ex(e)[1]
+        finally:
+            self.fresh_n = n0
+
+    def slice_bounds(self, s, length_text, node):
+        """(lo, hi) texts of a slice on an axis whose length is `length_text`; None when it is the full axis"""
+        if s.step is not None:
+            self.fail("slices with a step are not in the subset", node)
+        if s.lower is None and s.upper is None:
+            return None
+        lo = "0" if s.lower is None else self.index(s.lower)
+        hi = length_text if s.upper is None else self.index(s.upper)
+        return lo, hi
+
+    def slice_value(self, e):
+        """read-only slices as 1-D VALUES: `v[lo:hi]`, `a[lo:hi, x]`, `a[:, k]`, `a[y, lo:hi]`, `a[i, :]`,
+        and the whole array `a[:]` / `a[:, :]`.  (numpy: views — `emit_assign` refuses to bind one to a
+        name when the array or the name is written in place.)"""
+        v, sl = e.value, e.slice
+        bt, bty = self.ex(v)
+        if bty[0] == "a1" and isinstance(sl, ast.Slice):
+            b = self.slice_bounds(sl, f"(PyRt.A1.len {par(bt)})", e)
+            if b is None:
+                return bt, bty
+            return f"(PyRt.A1.slice {par(bt)} {b[0]} {b[1]})", bty
+        if bty[0] == "a2" and isinstance(sl, ast.Tuple) and len(sl.elts) == 2:
+            s0, s1 = sl.elts
+            if isinstance(s0, ast.Slice) and isinstance(s1, ast.Slice):
+                if self.slice_bounds(s0, "", e) is None and self.slice_bounds(s1, "", e) is None:
+                    return bt, bty
+                self.unsupported(e, "2-D block slice as a value")
+            if isinstance(s0, ast.Slice):                       # a[lo:hi, x]  /  a[:, x]
+                self.need_inh(bty[1])
+                b = self.slice_bounds(s0, f"(PyRt.A2.shape0 {par(bt)})", e)
+                if b is None:
+                    return f"(PyRt.A2.col {par(bt)} {self.index(s1)})", A1(bty[1])
+                return f"(PyRt.A2.colSlice {par(bt)} {b[0]} {b[1]} {self.index(s1)})", A1(bty[1])
+            if isinstance(s1, ast.Slice):                       # a[y, lo:hi]  /  a[y, :]
+                b = self.slice_bounds(s1, f"(PyRt.A2.shape1 {par(bt)})", e)
+                if b is None:
+                    return f"(PyRt.A2.row {par(bt)} {self.index(s0)})", A1(bty[1])
+                return f"(PyRt.A2.rowSlice {par(bt)} {self.index(s0)} {b[0]} {b[1]})", A1(bty[1])
+        self.unsupported(e, f"slice of a value of type {show_type(bty)}")
+
+    @staticmethod
+    def is_view(e):
+        """an expression that numpy evaluates to a VIEW of an array (row, slice, .real / .imag)"""
+        if isinstance(e, ast.Attribute) and e.attr in ("real", "imag"):
+            return True
+        return isinstance(e, ast.Subscript) and (
+            any(isinstance(n, ast.Slice) for n in ast.walk(e.slice)) or not isinstance(e.slice, ast.Tuple))
+
     def need_inh(self, elt):
-        if elt == REAL:
+        if elt in (REAL, CX):
             self.need("Inhabited")
 
     def attribute(self, e):
@@ -946,6 +1121,16 @@ class Fn:
         if d in ("np.pi", "math.pi", "numpy.pi"):
             self.oracles.add("pi")
             return "pi", REAL
+        if e.attr in ("real", "imag"):
+            bt, bty = self.ex(e.value)
+            part = "re" if e.attr == "real" else "im"
+            if bty == CX:
+                return proj(bt, 2, 0 if part == "re" else 1), REAL
+            if is_arr(bty) and bty[1] == CX:
+                return f"(PyRt.{bty[0].upper()}.{part} {par(bt)})", (bty[0], REAL)
+            if e.attr == "real" and (bty == REAL or (is_arr(bty) and bty[1] == REAL)):
+                return bt, bty          # `.real` of a real value is the value
+            self.fail(f"`.{e.attr}` of a value of type {show_type(bty)}", e)
         if e.attr in ("shape", "size"):
             bt, bty = self.ex(e.value)
             if bty[0] == "a1":
@@ -1059,6 +1244,15 @@ class Fn:
             if ty == REAL:
                 self.need("LT", "Neg", "OfNat0")
             return f"(PyRt.abs {par(t)})", ty
+        if d in ("np.square", "np.abs", "np.absolute") and len(args) == 1 and not kws \
+                and is_arr(self.peek_type(args[0])):
+            t, ty = self.ex(args[0])
+            if is_arr(ty) and is_num(ty[1]):
+                u = self.fresh("u")
+                fn = "sq" if d == "np.square" else "abs"
+                if ty[1] == REAL:
+                    self.need(*(("Mul",) if fn == "sq" else ("LT", "Neg", "OfNat0")))
+                return f"(PyRt.{ty[0].upper()}.map (fun {u} => PyRt.{fn} {u}) {par(t)})", ty
         if d == "np.square":
             only(1)
             t, ty = self.num(*self.ex(args[0]), e)
@@ -1085,9 +1279,26 @@ class Fn:
             for x, ty in vals[1:]:
                 acc = f"(PyRt.{d}2 {par(acc)} {par(self.co(x, ty, t))})"
             return acc, t
+        if d in ("np.add", "np.subtract", "np.multiply", "np.divide"):
+            only(2)
+            op = {"np.add": ast.Add(), "np.subtract": ast.Sub(), "np.multiply": ast.Mult(),
+                  "np.divide": ast.Div()}[d]
+            return self.binop_node(ast.copy_location(ast.BinOp(left=args[0], op=op, right=args[1]), e))
+        if d in ("np.mean", "np.argmin") and len(args) == 1 and not kws:
+            t, ty = self.ex(args[0])
+            if d == "np.mean" and ty[0] == "a1" and is_num(ty[1]):
+                self.need("Add", "Div", "OfNat0", "IntCast")
+                return f"(PyRt.A1.mean {par(self.co(t, ty, A1(REAL)))})", REAL
+            if d == "np.argmin" and ty[0] == "a1" and is_num(ty[1]):
+                if ty[1] == REAL:
+                    self.need("LT")
+                return f"(PyRt.A1.argmin {par(t)})", INT
+            self.fail(f"`{d}` is supported on 1-D numeric values only (got {show_type(ty)})", e)
         if d in ("np.sum", "np.max", "np.min", "np.amax", "np.amin"):
             only(1)
             t, ty = self.ex(args[0])
+            if d == "np.sum" and ty == A1(BOOL):
+                return f"(PyRt.A1.count {par(t)})", INT          # the number of True entries
             if ty[0] != "a1" or not is_num(ty[1]):
                 self.fail(f"`{d}` is supported on 1-D numeric arrays only (got {show_type(ty)})", e)
             fn = {"np.sum": "sum", "np.max": "max", "np.amax": "max", "np.min": "min", "np.amin": "min"}[d]
@@ -1114,6 +1325,12 @@ class Fn:
                 self.oracles.add("trunc")
                 return f"(PyRt.{ty[0].upper()}.map trunc {par(t)})", (ty[0], INT)
             self.fail(f"`.astype(int)` of {show_type(ty)}", e)
+        if d in ORACLES and ORACLES[d][1] == 1 and len(args) == 1 and not kws and is_arr(self.peek_type(args[0])):
+            t, ty = self.ex(args[0])
+            if is_arr(ty) and is_num(ty[1]):                     # np.sqrt(array): elementwise oracle
+                oname = ORACLES[d][0]
+                self.oracles.add(oname)
+                return f"(PyRt.{ty[0].upper()}.map {oname} {par(self.co(t, ty, (ty[0], REAL)))})", (ty[0], REAL)
         if d in ORACLES:
             oname, ar = ORACLES[d]
             only(ar)
@@ -1374,6 +1591,13 @@ class Fn:
             if isinstance(st.value, ast.Subscript) and ty[0] == "a1" and tg.id in self.mutated \
                     and "PyRt.A2.row" in t:
                 self.fail(f"`{tg.id}` is a row (numpy view) and is written in place", st)
+            if is_arr(ty) and self.is_view(st.value):
+                root = st.value
+                while isinstance(root, (ast.Subscript, ast.Attribute)):
+                    root = root.value
+                if tg.id in self.mutated or not isinstance(root, ast.Name) or root.id in self.mutated:
+                    self.fail(f"`{tg.id} = {dotted(st.value)}` binds a numpy view of an array while the array or "
+                              f"`{tg.id}` is written in place in this function", st)
             val = self.co(t, ty, self.vt[tg.id], st, f"assignment to {tg.id!r}")
             self.check_mutating([tg.id], st)
             self.defined.add(tg.id)
@@ -1436,7 +1660,27 @@ class Fn:
             return par(self.co(t, ty, elt, st, f"value stored into `{base.id}`"))
 
         self.mutating_calls = []
-        if aty[0] == "a1" and isinstance(sl, ast.Slice) and sl.lower is None and sl.upper is None \
+        full = lambda x: isinstance(x, ast.Slice) and x.lower is None and x.upper is None and x.step is None
+        row_value = None
+        if aty[0] == "a2" and isinstance(sl, ast.Tuple) and len(sl.elts) == 2 and full(sl.elts[1]) \
+                and not isinstance(sl.elts[0], ast.Slice) and not isinstance(st.value, (ast.Tuple, ast.List)) \
+                and not (isinstance(st.value, ast.Call) and dotted(st.value.func) in ("np.array", "numpy.array")):
+            row_value = self.peek_type(st.value)
+        if aty[0] == "a2" and isinstance(sl, ast.Tuple) and len(sl.elts) == 2 and full(sl.elts[0]) \
+                and full(sl.elts[1]):
+            t, ty = self.ex(st.value)            # b[:, :] = a
+            if ty[0] != "a2":
+                self.unsupported(st, "store (`b[:, :] = <not a 2-D array>`)")
+            text = f"PyRt.A2.assign {a} {par(self.co(t, ty, aty, st))}"
+        elif row_value is not None and row_value[0] == "a1":
+            t, ty = self.ex(st.value)            # b[i, :] = <1-D value>
+            text = f"PyRt.A2.setRow {a} {self.index(sl.elts[0])} {par(self.co(t, ty, A1(elt), st))}"
+        elif aty[0] == "a1" and full(sl) and is_arr(self.peek_type(st.value)):
+            t, ty = self.ex(st.value)            # b[:] = <1-D value>
+            if ty[0] != "a1":
+                self.unsupported(st, "store (`b[:] = <not a 1-D array>`)")
+            text = f"PyRt.A1.assign {a} {par(self.co(t, ty, aty, st))}"
+        elif aty[0] == "a1" and isinstance(sl, ast.Slice) and sl.lower is None and sl.upper is None \
                 and sl.step is None:
             t, ty = self.ex(st.value)            # a[:] = c
             if not is_scalar(ty):
@@ -1805,9 +2049,9 @@ def is_jit(node):
     return any("numba_util.jit" in dotted(d) for d in node.decorator_list)
 
 
-INT_NAME = re.compile(r"(index|indexes|indices|_sizes|sizes_|lengths|neighbors|native_for_slim|native_to_slim|"
+INT_NAME = re.compile(r"(index|indexes|indices|_sizes|sizes_|(?<!wave)lengths|neighbors|native_for_slim|native_to_slim|"
                       r"for_slim|for_sub|_for_pix|to_pix|pix_indexes|overlaid_centres|ridge_points|sub_size|"
-                      r"splitted_mappings|edge_pixels|pixel_centres)")
+                      r"splitted_mappings|pixel_centres)")
 
 
 def guess_types(node, known=None):
@@ -1867,6 +2111,20 @@ def guess_types(node, known=None):
             for k, a in list(zip(kparams, n.args)) + [(kw.arg, kw.value) for kw in n.keywords]:
                 if isinstance(a, ast.Name) and a.id in params and k in ktypes:
                     passed.setdefault(a.id, ktypes[k])
+    cast_real, cplx = set(), set()
+    for n in nodes:
+        if isinstance(n, ast.Call) and dotted(n.func) == "int" and len(n.args) == 1:
+            a0 = n.args[0]
+            if isinstance(a0, ast.Subscript):
+                a0 = a0.value
+            if isinstance(a0, ast.Name):
+                cast_real.add(a0.id)             # `int(p)` / `int(p[i, 0])`: p holds floats
+        if isinstance(n, ast.Attribute) and n.attr in ("real", "imag") and isinstance(n.value, ast.Name):
+            cplx.add(n.value.id)
+        if isinstance(n, ast.Assign) and isinstance(n.value, ast.Attribute) and n.value.attr in ("real", "imag") \
+                and isinstance(n.value.value, ast.Name) and isinstance(n.targets[0], ast.Name):
+            q0 = n.value.value.id
+            rank[q0] = max(rank.get(q0, 0), rank.get(n.targets[0].id, 0))
     for nm, q in all_alias:         # a local row of a parameter that is itself subscripted: the parameter is 2-D
         if rank.get(nm, 0) > 0 and q in params:
             rank[q] = 2
@@ -1928,7 +2186,11 @@ def guess_types(node, known=None):
     for a in node.args.args:
         q, ann = a.arg, (dotted(a.annotation) if a.annotation is not None else "")
         r = rank.get(q, 0)
-        if q in passed and r == 0:
+        if q in cplx and r > 0:
+            out[q] = f"A{min(r, 2)} Complex"
+        elif q in cast_real and q not in as_index:
+            out[q] = f"A{min(r, 2)} Real" if r > 0 else "Real"
+        elif q in passed and r == 0:
             out[q] = passed[q]
         elif "Tuple[int, int]" in ann or (q in ("shape_native", "resized_shape", "kernel_shape_native", "shape")
                                           and ann in ("", "Tuple[int, int]") and r <= 1):
